@@ -265,6 +265,10 @@ func trimPath(path string) string {
 
 	for len(bytes) > 1 && bytes[0] == '.' && (bytes[1] == '/' || bytes[1] == '\\') {
 		bytes = bytes[2:]
+		// ".//foo" is "foo", not "/foo"
+		for len(bytes) > 0 && (bytes[0] == '/' || bytes[0] == '\\') {
+			bytes = bytes[1:]
+		}
 	}
 
 	if len(bytes) == 0 {
